@@ -287,7 +287,7 @@ def check_tables(cfg, crate, rep):
         n += 1
         rep.ob("C02.tables", "%s|%s" % (cfg, name), got == want, "registered OID value", expected=want, found=got)
     for name in crate.bodies:
-        if name.startswith("oid::") and name not in OID_CONSTS:
+        if name.startswith("oid::") and name not in OID_CONSTS and (crate.bodies[name].get("dk") or "").startswith(("Const", "Static")) and "::" not in name[5:]:
             rep.fail("C02.tables", "%s|%s" % (cfg, name), "OID constant without a reference value (add it to the reference table after checking its registration)")
     rep.floor("C02.tables", "oid.rs constants (%s)" % cfg, n, 25)
     # CIDR: to_bytes = address then mask; from_v4_prefix <-> u32, from_v6_prefix <-> u128
